@@ -37,11 +37,20 @@ var replayAdapters = map[string]func(eng *Engine, a *obAgg, f *Oblig, replay map
 // fixedReplays: obligations whose counterexample is schedule/sequence shaped (not a function input): a hand-written
 // adapter drives the real code through the scenario the failed obligation describes.
 var fixedReplays = map[string]struct{ tmpl, pkg, run string }{
+	"(*callbackStore).Put/nonblock/send#0": {"C12_put_blocks_test.go.tmpl", "internal/chain/beacon", "TestVerifReplayC12PutBlocks"},
+	"(*partialCache).Append/post/append-keeps-per-signer-bound": {"C12_cache_bound_test.go.tmpl", "internal/chain/beacon", "TestVerifReplayC12CacheBound"},
 	"(*SyncManager).tryNode/assert/resync-writes-only-the-requested-rounds": {"C10_resync_window_test.go.tmpl", "internal/chain/beacon", "TestVerifReplayC10ResyncWindow"},
 }
 
 func replayTemplates(eng *Engine, a *obAgg, f *Oblig, replay map[string]any) bool {
 	fr, ok := fixedReplays[a.Name]
+	if !ok {
+		for k, v := range fixedReplays {
+			if strings.HasPrefix(a.Name, k+"@") {
+				fr, ok = v, true
+			}
+		}
+	}
 	if !ok {
 		replay["replay"] = "no replay adapter for this obligation: the violation is reported on the strength of the failed obligation alone"
 		return false
